@@ -409,7 +409,8 @@ def muc_explain(tr, hw):
             # a whole stanza is unprocessed and nothing can move: the serve loop is stopped
             prev = sent[nh]["st"]
             what = "%s(%s%s)" % (prev["ty"], prev["room"], (" answering %s, shape %s" % (prev["call"], prev.get("shape"))) if prev["ty"] == "er" else "/" + prev["nick"])
-            rets = ["%s returned %s" % (e["c"], e.get("text") or e.get("cond") or e["o"]) for e in tr if e["_line"] < hw and e.get("ev") == "ret"]
+            rets = ["%s returned %s" % (e["c"], e["o"] if e["o"] in ("ok", "ctx") else (e.get("text") or e.get("cond") or e["o"]))
+                    for e in tr if e["_line"] < hw and e.get("ev") == "ret"]
             return "C06_NoStall", "the serve loop is stopped: at quiescence the stanza %s which the room sent completely is still unprocessed (%d of %d stanzas processed%s%s) - a reply handed to a caller was never released, or a handler never returned" % (
                 what, nh, len(sent), "; " + "; ".join(rets) if rets else "", "; still waiting: " + ", ".join(pend) if pend else "")
         parts = []
